@@ -145,6 +145,41 @@ func init() {
 				sendCase(cw, []rscp.Message{{Tag: rscp.BAT_REQ_DATA, DataType: rscp.Container, Value: []rscp.Message{m}}}, j == 1, g.time(), fmt.Sprintf("none-with-tag-typed-value dt=%d nested", dt))
 			}
 		}
+		// credentials too long for the authentication request (one of them beyond a string's limit, or both together beyond
+		// the frame): the call is refused and nothing at all is written
+		for _, up := range [][2]int{{4, 65529}, {65529, 4}, {4, 70000}, {40000, 40000}, {32760, 32760}, {4, 131081}, {8, 65500}} {
+			cl, err := rscp.NewClient(rscp.ClientConfig{Address: "a", Username: strings.Repeat("u", up[0]), Password: strings.Repeat("p", up[1]), Key: "sendkey"})
+			if err != nil {
+				cw.add("skip", "skip", fmt.Sprintf("N send long-credentials user=%d password=%d newclient-error", up[0], up[1]), "pass")
+				continue
+			}
+			sc := &scriptConn{}
+			sc.onWrite = func(k int, b []byte) [][]byte { return nil }
+			cl.VerifAttachConn(sc)
+			res := func() (s string) {
+				defer func() {
+					if r := recover(); r != nil {
+						s = "panic"
+					}
+				}()
+				_, err := cl.SendMultiple(g.nonceRequest(0))
+				if err != nil {
+					return "err " + clientErrClass(err)
+				}
+				return "ok"
+			}()
+			fits := 7+7+up[0]+7+up[1] <= 65535 && up[0] <= 65528 && up[1] <= 65528
+			prop := "pass"
+			switch {
+			case res == "panic":
+				prop = "FAIL C05 the client panics with long credentials"
+			case !fits && len(sc.writes) > 0:
+				prop = fmt.Sprintf("FAIL C05 credentials that do not fit an authentication request (user %d, password %d bytes): %d bytes were written all the same, result %s ;; FAIL C09 the first frame does not carry the configured credentials", up[0], up[1], len(sc.writes[0]), res)
+			case !fits && res == "ok":
+				prop = "FAIL C05 a call with credentials that cannot be transmitted succeeds"
+			}
+			cw.add("skip", "skip", fmt.Sprintf("N send long-credentials user=%d password=%d fits=%v result=%s", up[0], up[1], fits, res), prop)
+		}
 		// several calls on one connection, some of them refused by validation (a wrong value; items that fit one by one but
 		// not together; a response tag): every frame that reaches the wire decrypts, in the peer's chain, to a well-formed
 		// frame with the requests of an accepted call — a refused call leaves the cipher state alone
@@ -212,13 +247,14 @@ func init() {
 		// then two more calls: whatever the client does, nothing may be written on that connection after the failed
 		// write (its cipher state has moved on, the peer's has not)
 		for _, at := range []int{1, 2} {
-			for rep := 0; rep < 3; rep++ {
+			for rep, partial := range []int{0, 1, 32, 100, 4096} {
 				cl, err := rscp.NewClient(rscp.ClientConfig{Address: "a", Username: "u", Password: "p", Key: "sendkey"})
 				if err != nil {
 					continue
 				}
 				pc := newPeerCipher("sendkey")
-				sc := &scriptConn{timeoutAt: at - 1 + 1}
+				sc := &scriptConn{timeoutAt: at - 1 + 1, timeoutBytes: partial}
+				_ = rep
 				sc.onWrite = func(k int, b []byte) [][]byte {
 					pl := frameBytes(itemBytes(uint32(rscp.RSCP_AUTHENTICATION), 3, []byte{10}), true, 1, 2)
 					if k > 0 {
@@ -237,7 +273,9 @@ func init() {
 								res = append(res, "panic")
 							}
 						}()
-						_, err := cl.SendMultiple(g.nonceRequest(k))
+						rq := g.nonceRequest(k)
+						rq = append(rq, rscp.Message{Tag: rscp.WB_REQ_DATA, DataType: rscp.Container, Value: []rscp.Message{{Tag: rscp.WB_EXTERN_DATA, DataType: rscp.ByteArray, Value: make([]byte, 9000)}}})
+						_, err := cl.SendMultiple(rq)
 						if err != nil {
 							res = append(res, "err "+clientErrClass(err))
 						} else {
@@ -254,7 +292,7 @@ func init() {
 						prop = "FAIL * client panics after a write time-out"
 					}
 				}
-				cw.add("skip", "skip", fmt.Sprintf("N send write-timeout at=%d results=%s", at, strings.Join(res, ",")), prop)
+				cw.add("skip", "skip", fmt.Sprintf("N send write-timeout at=%d partial=%d results=%s", at, partial, strings.Join(res, ",")), prop)
 			}
 		}
 		vs := []int{65527, 65528, 65529, 65535, 65536, 65541, 131072, 131079}
